@@ -36,7 +36,7 @@ class Terms:
                 elif n in ("deref", "deref_mut", "as_slice", "as_ref", "borrow", "as_mut_slice", "clone", "to_owned") and s[5]:
                     t = self.op(s[5][0], depth - 1)
                 else:
-                    t = ("call", l)
+                    t = ("call", l, n)
             else:
                 rv = s[5]
                 if rv[0] == "use":
